@@ -61,6 +61,9 @@ def run(tier):
                     add(c, 0, [PREFIX_LINE] * q + [line, "ret"], [clc] * q + [h, "c3"])
     # start offsets != 0 and fitting switched on/off/resized between calls, random programs
     allc = [(l, h) for lst in cat.values() for (l, h) in lst]
+    if len(allc) < 10:
+        v.violation({"key": "length catalogue", "fam": "precondition"}, "precondition:valid-lines-rejected", "only %d catalogue lines are accepted by plain assembly" % len(allc))
+        return v.finish()
     nrand = 1500 if not full else 100000
     for k in range(nrand):
         c = rnd.choice(cs[:-1] if full else cs)
@@ -112,7 +115,7 @@ def run(tier):
         if recs[1].split()[1] != "0" or recs[5].split()[1] != "0":
             v.violation(case, "exec:program-rejected", " | ".join(recs[1:6]))
         elif e0[:2] != ["V", "ok"]:
-            raise common.HarnessError("plain executable program did not run: %s" % recs[2])
+            v.violation(case, "exec:plain-code-does-not-run", recs[2])  # the plain assembly of a valid register-only program crashes when executed
         elif e1 != e0:
             v.violation(case, "exec:fitted-code-computes-differently", "plain %s fitted %s" % (" ".join(e0), " ".join(e1)))
         else:
